@@ -233,9 +233,24 @@ def repl_fp(c, r):
 
 
 def run_repl(ctx, binary):
-    beh = ctx.tlc_behaviours("ReadReplica.tla", ctx.q("c45_repl_sim_quick.cfg", "c45_repl_sim_thorough.cfg"),
-                             num=ctx.q(120, 400), depth=ctx.q(18, 30), procs=4)
-    beh = beh[:ctx.q(48, 160)]
+    gen = ctx.tlc_behaviours("ReadReplica.tla", ctx.q("c45_repl_sim_quick.cfg", "c45_repl_sim_thorough.cfg"),
+                             num=ctx.q(300, 700), depth=ctx.q(18, 30), procs=4)
+    # selection among TLC's behaviours (expectations untouched): those in which a replica pull has to drop a branch the remote
+    # deleted come first - the last ref in sort order ("tail" of refsToDelete's merge) and one before a surviving ref ("head")
+    def has(b, f):
+        return any(s["a"] == "ReplicaRead" and s["exp"].get(f) for s in b)
+    tail = [b for b in gen if has(b, "tail")]
+    head = [b for b in gen if has(b, "head") and not has(b, "tail")]
+    rest = [b for b in gen if not has(b, "tail") and not has(b, "head")]
+    ctx.cov["repl_pulls_dropping_last_sorted_branch"] = len(tail)
+    ctx.cov["repl_pulls_dropping_earlier_sorted_branch"] = len(head)
+    if not tail or not head:
+        raise vlib.Inconclusive("generator vacuity: no behaviour in which the replica must drop a remotely deleted branch (tail %d, head %d)" % (len(tail), len(head)))
+    nmain = ctx.q(36, 130)
+    beh = tail[:nmain // 3] + head[:nmain // 4]
+    beh += rest[:nmain - len(beh)]
+    if ctx.tier == "quick":
+        beh += ctx.tlc_behaviours("ReadReplica.tla", "c45_repl_sim_quick_tags.cfg", num=60, depth=18, procs=2, seed=ctx.seed + 31)[:12]
     hist = {}
     for b in beh:
         for s in b:
@@ -274,6 +289,61 @@ def run_repl(ctx, binary):
     ctx.cov["repl_writes_after_failed_reconfiguration"] = nwin
     if nwin == 0:
         raise vlib.Inconclusive("no replayed behaviour writes twice under an unresolvable dolt_replicate_to_remote (generator vacuity)")
+
+
+def recreated_same_commit(b):
+    """a branch is deleted and later created again at the commit it had when it was deleted (selection only)"""
+    prev, deleted = {}, {}
+    for s in b:
+        loc = s["exp"].get("local")
+        if s["a"] == "DeleteBranch":
+            k = "b:" + s["args"]["b"]
+            if k in prev:
+                deleted[k] = prev[k]
+        if s["a"] == "CreateBranch" and loc is not None:
+            k = "b:" + s["args"]["b"]
+            if k in deleted and loc.get(k) == deleted[k]:
+                return True
+        if loc is not None:
+            prev = loc
+    return False
+
+
+def run_async(ctx, binary):
+    """dolt_async_replication = 1: same expectations as the synchronous hook once the driver has waited at a flush barrier"""
+    gen = ctx.tlc_behaviours("ReadReplica.tla", "c45_repl_sim_async.cfg", num=ctx.q(300, 600), depth=14, procs=4, seed=ctx.seed + 13)
+    rec = [b for b in gen if recreated_same_commit(b)]
+    ctx.cov["async_behaviours_recreating_a_deleted_branch_at_the_same_commit"] = len(rec)
+    if not rec:
+        raise vlib.Inconclusive("generator vacuity: no asynchronous behaviour deletes a branch and re-creates it at the same commit")
+    n = ctx.q(10, 30)
+    beh = rec[:n // 2] + [b for b in gen if not recreated_same_commit(b)][:n - min(len(rec), n // 2)]
+    cases = [{"steps": b, "async": True} for b in beh]
+    parts, nsh = _bm.chunks(vlib, cases)
+    missed = []
+    for part in parts:
+        res = ctx.run_engine(binary, [], part, shards=min(nsh, len(part)), timeout=ctx.q(1500, 3000))
+        for c, r in zip(part, res):
+            if r.get("skipped"):
+                continue
+            if r.get("inconclusive") or r.get("crash") or r.get("signal"):
+                missed.append(str(r.get("inconclusive") or r.get("detail"))[-300:])
+                continue
+            ctx.cov["evaluations"] += int(r.get("evals", 0))
+            if r.get("ok"):
+                ctx.cov["traces_validated_against_impl"] += 1
+                if recreated_same_commit(c["steps"]):
+                    ctx.nontrivial("async:" + hashlib.sha1(json.dumps([s["a"] for s in c["steps"]]).encode()).hexdigest())
+                continue
+            r2 = ctx.run_engine(binary, [], [dict(c)], shards=1)[0]
+            if r2.get("ok"):
+                ctx.notes.append("unreproduced async mismatch (ignored): " + json.dumps(r)[:400])
+            elif r2.get("inconclusive") or r2.get("crash") or r2.get("signal"):
+                missed.append(str(r2.get("inconclusive") or r2.get("detail"))[-300:])
+            else:
+                ctx.violation("C45:repl:async:" + str(r2.get("fp")), r2.get("detail", ""), {"part": "repl", "case": c, "result": r2, "reproduced": True})
+    if missed and not ctx.violations:
+        raise vlib.Inconclusive("asynchronous push: " + "; ".join(missed)[:1500])
 
 
 # ------------------------------------------------------------------------------------------------ part C: the SQL face of the role
@@ -331,7 +401,10 @@ def run(ctx):
         "the provider's read-only check and killRunningQueries are played by the harness through the controller's real callbacks",
         "ack timeout = 1 s (smallest value of dolt_cluster_ack_writes_timeout_secs); circuit-breaker clock = h.nowFunc (fake, integer seconds)",
         "push-on-write and read replica: file:// remote, one process hosting primary and replica engines (dolt's replication system "
-        "variables are process-global; the driver sets them around each statement); async push (dolt_async_replication) is not driven",
+        "variables are process-global; the driver sets them around each statement)",
+        "asynchronous push (dolt_async_replication = 1) is driven with a valid, reachable remote only; after every statement the driver "
+        "waits at a flush barrier (two marker commits awaited on the remote, bound 30 s each, a miss is inconclusive) and then demands "
+        "the remote refs of the synchronous model",
         "a remote outage is realised by renaming the remote directory away and back",
         "'the standby rejects writes' is driven through the real SQL engine with a real cluster.Controller that has no standby remotes "
         "(dolt_assume_cluster_role / dolt_cluster_transition_to_standby, restart with the persisted role)",
@@ -364,6 +437,7 @@ def run(ctx):
     inconclusive = run_hook(ctx, hookbin) if only in ("", "hook") else []
     if only in ("", "repl"):
         run_repl(ctx, replbin)
+        run_async(ctx, replbin)
         run_role(ctx, replbin)
     ctx.cov["binding_selftest"] = "; ".join(x for x in (ctx.cov.pop("binding_selftest_hook", ""), ctx.cov.get("binding_selftest", ""),
                                                          ctx.cov.pop("binding_selftest_role", "")) if x)
